@@ -62,7 +62,7 @@ def run_scan(res, vworker, jobs, pvs, props, extra_args=None, per_shard=None, ti
             if rc == 3 and "HARNESS:" in tail:
                 deaths.append({"kind": "harness", "label": tag, "tail": tail[-1500:]})
                 return (outp, deaths)
-            deaths.append({"kind": "hang" if rc == -9 else "death", "rc": rc, "case": openc, "label": tag, "tail": tail, "out": outp})
+            deaths.append({"kind": "hang" if rc == -9 else ("hangexit" if rc == 5 and "HANG-EXIT" in tail else "death"), "rc": rc, "case": openc, "label": tag, "tail": tail, "out": outp})
             # drop the package that killed the worker and go on with the rest
             bad = None
             if openc:
@@ -82,6 +82,12 @@ def run_scan(res, vworker, jobs, pvs, props, extra_args=None, per_shard=None, ti
         for dth in deaths:
             if dth["kind"] == "harness":
                 vlib.harness_fail("scan worker %s: %s" % (dth["label"], dth["tail"]))
+            if dth["kind"] == "hangexit":
+                # the worker gave up on one Check (hang_suspect record emitted); the suspect is re-run alone by C01
+                if dth.get("out"):
+                    res.read_jsonl(dth["out"], accept_props=props, on_record=on_record)
+                res.count("workers_that_gave_up_on_a_check")
+                continue
             frame = ""
             m = re.findall(r"\n(github\.com/go-critic/go-critic/[\w/]+\.(?:\(\*?\w+\)\.)?[\w.]+)\(", dth["tail"])
             if m:
